@@ -404,28 +404,24 @@ def events_match(impl, model, wire_slack=0):
 
 
 def _wire_close(x, y, slack):
-    def flat(e):
-        out = []
-        for part in e[1:]:
-            if isinstance(part, list):
-                for q in part:
-                    if isinstance(q, list):
-                        out.extend(q)
-                    else:
-                        out.append(q)
-            else:
-                out.append(part)
-        return out
-    fx, fy = flat(x), flat(y)
-    if len(fx) != len(fy):
+    """device events equal, except that colour components may differ by `slack` raw units
+    (ties of the float rounding; exactness of the conversion is property C07's business);
+    names, powers, zone indices, sizes and durations must be identical"""
+    if len(x) != len(y) or x[0] != y[0]:
         return False
-    for a, b in zip(fx, fy):
-        if isinstance(a, str) or isinstance(b, str):
-            if a != b:
+    for a, b in zip(x[1:], y[1:]):
+        if isinstance(a, list) and isinstance(b, list):
+            if len(a) != len(b):
                 return False
-        elif a is None or b is None:
-            if a is not b:
-                return False
-        elif abs(a - b) > slack:
+            for p, q in zip(a, b):
+                if isinstance(p, list) and isinstance(q, list):
+                    if len(p) != len(q) or any(abs(u - v) > slack for u, v in zip(p, q)):
+                        return False
+                elif p is None or q is None or isinstance(p, list) or isinstance(q, list):
+                    if p != q:
+                        return False
+                elif abs(p - q) > slack:
+                    return False
+        elif a != b:
             return False
     return True
